@@ -151,7 +151,7 @@ def evalE (T : CastTables) (ext : Ext) (val : Dyn) (parsed : Dyn) : E → Outcom
   | .intLit t n => .ok (.int t n)
   | .f64Lit n => .ok (.f64 (Float.ofInt Float.f64 n))
   | .f32Lit n => .ok (.f32 (Float.ofInt Float.f32 n))
-  | .numLit s => .ok (.num (IntText.ofString s))
+  | .numLit s => .ok (.num s)
   | .toInt t e =>
     match evalE T ext val parsed e with
     | .ok (.int _ v) => .ok (.int t (t.wrap v))
@@ -242,6 +242,9 @@ def evalE (T : CastTables) (ext : Ext) (val : Dyn) (parsed : Dyn) : E → Outcom
   | .timeUnix e =>
     match evalE T ext val parsed e with
     | .ok (.int _ v) =>
+      -- package time computes in 64-bit seconds from year -292277022399: outside ±2^62 the
+      -- arithmetic wraps; the model abstains there
+      if v ≤ -(2 ^ 62 : Int) || v ≥ (2 ^ 62 : Int) then .err .ext else
       match ext.zoneOffset v with
       | some off => .ok (.time ⟨v, 0, off⟩)
       | none => .err .ext
@@ -311,7 +314,7 @@ mutual
         | none => .err .ext
   def evalBranch (T : CastTables) (ext : Ext) : Nat → String → Branch → Dyn → Outcome Dyn
     | 0, _, _, _ => .err .ext
-    | fuel + 1, self, br, val =>
+    | fuel + 1, _self, br, val =>
       match br with
       | .ret e => evalE T ext val .nil e
       | .retNil => .ok .nil
